@@ -11,7 +11,9 @@ PID = "C19"
 
 
 def render_seg(seg: dict) -> str:
-    return seg["stem"] + ("" if seg["num"] < 0 else "0" * seg.get("pad", 0) + str(seg["num"])) + "".join("." + e for e in seg["exts"])
+    import re
+    stem = re.sub(r"\{U\+([0-9A-F]{4,6})\}", lambda m: chr(int(m.group(1), 16)), seg["stem"])
+    return stem + ("" if seg["num"] < 0 else "0" * seg.get("pad", 0) + str(seg["num"])) + "".join("." + e for e in seg["exts"])
 
 
 class Codec:
